@@ -113,6 +113,73 @@ def worker(job: dict[str, Any]) -> dict[str, Any]:
     return out
 
 
+
+WCONTENT = {"x1": "a\n", "x2": "b\n", "y": "cc\n"}
+
+
+def replay_watcher(hist: list[dict[str, Any]]) -> str | None:
+    """Step a real FileSystemWatcher along one TLC behaviour of FsWatcher.tla."""
+    from mypy.fscache import FileSystemCache
+    from mypy.fswatcher import FileSystemWatcher
+    root = scratch("c03w-")
+    fsc = FileSystemCache()
+    w = FileSystemWatcher(fsc)
+    path = {"p": os.path.join(root, "p.py"), "q": os.path.join(root, "q.py")}
+    rev = {v: k for k, v in path.items()}
+    try:
+        for i, e in enumerate(hist):
+            if e["ev"] in ("write", "touch"):
+                with open(path[e["p"]], "w") as f:
+                    f.write(WCONTENT[e["c"]])
+                t = 1_000_000 + e["t"] * 10
+                os.utime(path[e["p"]], (t, t))
+            elif e["ev"] == "delete":
+                os.unlink(path[e["p"]])
+            elif e["ev"] == "add":
+                w.add_watched_paths([path[x] for x in e["changed"]])
+            elif e["ev"] == "remove":
+                w.remove_watched_paths([path[x] for x in e["changed"]])
+            elif e["ev"] == "find_changed":
+                fsc.flush()
+                got = sorted(rev[x] for x in w.find_changed())
+                if got != sorted(e["changed"]):
+                    return "step %d: find_changed() = %r, specification %r" % (i, got, sorted(e["changed"]))
+        return None
+    finally:
+        shutil.rmtree(root, ignore_errors=True)
+
+
+def decode_d(mod: str, v: str) -> str:
+    x = json.loads(v)
+    if mod == "c":
+        return {"bad": "c[bad]", "absent": "c-"}.get(x["k"], "c[%d,%d]" % (x["iface"], x["err"]))
+    return x["k"]
+
+
+def replay_model_history(job: dict[str, Any]) -> dict[str, Any]:
+    """A Daemon.tla behaviour on the real Server: responses vs fresh check (property) and vs the model (binding)."""
+    W.preload()
+    mode, hist = job["mode"], job["hist"]
+    worlds = []
+    cur = {"a": "use", "b": "reexport", "c": "c[0,0]"}
+    expected = []
+    for e in hist:
+        if e["ev"] == "edit":
+            cur = dict(cur); cur[e["mod"]] = decode_d(e["mod"], e["v"])
+        else:
+            worlds.append(dict(cur)); expected.append({"status": e["status"], "errs": sorted(e["errs"])})
+    idx, what, resps = run_history(mode, worlds)
+    out: dict[str, Any] = {"job": {"mode": mode, "hist": worlds}, "fail": idx is not None, "what": what, "steps": len(worlds), "drift": []}
+    if idx is not None:
+        out["minimal"] = minimise(mode, worlds[: idx + 1], False)
+        out["what"] = run_history(mode, out["minimal"])[1] or what
+    for i, (r, ex) in enumerate(zip(resps, expected)):
+        files = sorted({l.split(".py", 1)[0] for l in (r.get("out", "") + r.get("err", "")).splitlines() if ".py:" in l})
+        if r.get("status") != ex["status"] or files != ex["errs"]:
+            out["drift"].append({"step": i + 1, "model": ex, "real": {"status": r.get("status"), "errs": files}, "world": worlds[i]})
+    out["nontrivial"] = not out["fail"] and any(ex["errs"] for ex in expected)
+    return out
+
 def classify(what: str) -> str:
     if "internal error" in what or "no response" in what:
         return "crash"
@@ -123,9 +190,53 @@ def main(argv: list[str]) -> int:
     tier, seed, replay = parse_args(argv)
     v = Verdict(PID, tier, seed)
     rnd = random.Random(seed)
+    for m in ("MC_Daemon", "MC_FsWatcher"):
+        sany(os.path.join(SPEC, m + ".tla"))
+    cov: dict[str, Any] = {}
+    states = transitions = 0
+    # ---- 1. model checking (+ specification mutants)
+    for mod, cfg in (("MC_Daemon", "MC_Daemon_follow.cfg"), ("MC_Daemon", "MC_Daemon_nofollow.cfg"), ("MC_FsWatcher", "MC_FsWatcher.cfg")):
+        r = tlc(mod, cfg, timeout=1800)
+        if r.error:
+            raise MachineryError("TLC %s: %s" % (cfg, r.error))
+        if r.violated:
+            v.violation("model:%s:%s" % (cfg, r.violated), {"cfg": cfg, "trace": r.trace_text}, "specification invariant violated")
+        states += r.distinct; transitions += r.generated
+        cov[cfg] = dict(coverage_summary(r), states=r.distinct, transitions=r.generated)
+    for mod, cfg, inv in (("MC_Daemon", "Mut_Daemon_FollowIndirect.cfg", "RespondsLikeFresh"), ("MC_FsWatcher", "Mut_FsWatcher_Coarse.cfg", "Exact")):
+        rm = tlc(mod, cfg, coverage=False)
+        if rm.violated != inv:
+            raise MachineryError("specification mutant %s not rejected: %s %s" % (cfg, rm.violated, rm.error))
+        cov.setdefault("spec_mutants_rejected", {})[cfg] = rm.violated
+    # ---- 2. watcher behaviours on the real FileSystemWatcher
+    g = tlc("MC_FsWatcher", "Gen_FsWatcher.cfg", workers=1, coverage=False, simulate="num=%d" % (1500 if tier == "quick" else 12000), depth=9, seed=seed + 1, timeout=900)
+    if not g.ok:
+        raise MachineryError("Gen FsWatcher: %s %s" % (g.violated, g.error))
+    wh = {json.dumps(x, sort_keys=True): x for x in g.json_lines("HIST")}
+    if len(wh) < 200:
+        raise MachineryError("too few watcher behaviours emitted: %d" % len(wh))
+    nwatch = 0
+    for k in sorted(wh):
+        bad = replay_watcher(wh[k])
+        nwatch += 1
+        if bad:
+            v.violation("watcher:" + json.dumps([[e["ev"], e["p"], e["c"], sorted(e["changed"])] for e in wh[k]]), {"history": wh[k]},
+                        "FileSystemWatcher does not follow FsWatcher.tla (which satisfies Exact): " + bad)
+            break
+    # ---- 3. Daemon.tla behaviours on the real Server
+    mjobs: list[dict[str, Any]] = []
+    for mode, cfg in (("normal", "Gen_Daemon_follow.cfg"), ("error", "Gen_Daemon_nofollow.cfg")):
+        gd = tlc("MC_Daemon", cfg, workers=1, coverage=False, timeout=900)
+        if not gd.ok:
+            raise MachineryError("Gen Daemon: %s %s" % (gd.violated, gd.error))
+        hs = {json.dumps(x, sort_keys=True): x for x in gd.json_lines("HIST")}
+        if len(hs) < 100:
+            raise MachineryError("too few daemon behaviours emitted")
+        for k in sorted(hs):
+            mjobs.append({"mode": mode, "hist": hs[k]})
+    # ---- 4. deterministic history sets over catalogue D
     ws = D.d_worlds()
     jobs: list[dict[str, Any]] = []
-    # deterministic core: all two-step histories (both modes)
     pairs = [(a, b) for a in ws for b in ws if a != b]
     if tier == "quick":
         # deterministic subset: second world differs from the first in exactly one module
@@ -139,23 +250,26 @@ def main(argv: list[str]) -> int:
     nseq = 200 if tier == "quick" else 6000
     for i in range(nseq):
         n = gen.choice([3, 4])
-        h = [gen.choice(ws)]
+        hh = [gen.choice(ws)]
         for _ in range(n - 1):
-            nxt = dict(h[-1])
+            nxt = dict(hh[-1])
             for m in gen.sample(sorted(nxt), gen.choice([1, 1, 2])):
                 nxt[m] = gen.choice(sorted(D.DVARIANTS[m]))
-            h.append(nxt)
+            hh.append(nxt)
         mode = gen.choice(sorted(MODES))
         # `recheck` re-checks "the same files as last time": only comparable with a fresh check of the listed files
         # when the set of files that are part of the build does not change along the history
-        stable = all(w["b"] != "noimport" and w["c"] != "c-" for w in h)
-        jobs.append({"mode": mode, "hist": h, "recheck": bool(i % 3 == 0) and stable})
+        stable = all(w["b"] != "noimport" and w["c"] != "c-" for w in hh)
+        jobs.append({"mode": mode, "hist": hh, "recheck": bool(i % 3 == 0) and stable})
     rnd.shuffle(jobs)
     results = []
+    mresults = []
     with ProcessPoolExecutor(16) as pex:
+        for res in pex.map(replay_model_history, mjobs, chunksize=4):
+            mresults.append(res)
         for res in pex.map(worker, jobs, chunksize=4):
             results.append(res)
-    fails = [r for r in results if r["fail"]]
+    fails = [r for r in results + mresults if r["fail"]]
     seen: dict[str, Any] = {}
     for r in fails:
         key = "hist:" + json.dumps({"mode": r["job"]["mode"], "recheck": r["job"].get("recheck", False), "h": r["minimal"]}, sort_keys=True)
@@ -163,18 +277,25 @@ def main(argv: list[str]) -> int:
             continue
         seen[key] = r
         v.violation(key, {"mode": r["job"]["mode"], "history": r["job"]["hist"], "minimal": r["minimal"], "recheck": r["job"].get("recheck", False)}, r["what"])
-    if not results:
+    drift = [d for r in mresults if not r["fail"] for d in r["drift"]]
+    if not results or not mresults or nwatch == 0:
         raise MachineryError("conformance step did not run")
     coverage = {
-        "evaluations": len(results), "distinct_nontrivial": sum(1 for r in results if r.get("nontrivial")),
-        "steps": sum(r["steps"] for r in results), "failing_histories": len(fails), "distinct_minimal_failing": len(seen),
-        "rule": "edit histories over the 48-world catalogue D (a: use/nouse; b: reexport/infer/internal/noimport; c: 4 contents, syntax error, absent), "
-                "a request after every step, import following on (only a.py listed) and off (all listed); quick: every 2-step history whose second "
-                "world differs in one module + seeded 3-4 step histories (every third with recheck); thorough: all 2-step histories + 6000 more; "
-                "non-trivial = history with >1 distinct world and diagnostics in some step",
-        "samples": [results[0]["job"]], "exhaustive": tier == "thorough",
+        "states": states, "transitions": transitions,
+        "traces_validated_against_impl": len(mresults) + nwatch,
+        "evaluations": len(results) + len(mresults), "distinct_nontrivial": sum(1 for r in results + mresults if r.get("nontrivial")),
+        "steps": sum(r["steps"] for r in results + mresults), "failing_histories": len(fails), "distinct_minimal_failing": len(seen),
+        "watcher_behaviours_replayed": nwatch, "daemon_model_behaviours_replayed": len(mresults),
+        "model_drift_count": len(drift), "model_drift": drift[:8],
+        "rule": "(i) every behaviour TLC emits for Gen_Daemon_*.cfg (edit/request histories, both import modes) on the real Server, each response "
+                "compared with a fresh check (property) and with the model's response (binding); (ii) TLC simulation behaviours of FsWatcher.tla on "
+                "the real FileSystemWatcher; (iii) edit histories over the 48-world catalogue D, a request after every step, import following on "
+                "and off: quick = every 2-step history whose second world differs in one module + a fixed set of 200 3-4 step histories (every "
+                "third with recheck); thorough = all 2-step histories + 6000. non-trivial = history with >1 distinct world and diagnostics",
+        "samples": [results[0]["job"], mresults[0]["job"]], "tlc": cov, "exhaustive": tier == "thorough",
     }
-    return v.finish("model_checking", coverage, ["A-clock", "in-process Server.check / cmd_recheck (no socket), fresh forked process per history, test fixtures"])
+    return v.finish("model_checking", coverage, ["A-clock", "in-process Server.check / cmd_recheck (no socket), fresh forked process per history, test fixtures",
+                                                  "oracle: fresh non-incremental build of the same mypy on the files as they are; the model's response is a second opinion"])
 
 
 if __name__ == "__main__":
